@@ -301,7 +301,8 @@ Definition u_c14 (k : Z) (a : sx) : sx :=
       | _ => bad_input
       end
   | 5 =>
-      (* shared parts: (0 votes) VoteTotals ; (1 votes subset) SubsettedVotes ; (2 d1 d2) add_dict_to_dict *)
+      (* shared parts: (0 votes) VoteTotals ; (1 votes subset) SubsettedVotes ; (2 d1 d2) add_dict_to_dict ;
+         (3 votes) / (4 votes subset) the declarative definitions totals_s / subset_s of the spec side *)
       match a with
       | L [A 0; v] => match dec_val v with Some v' => enc_res (vote_totals v') | None => bad_input end
       | L [A 1; v; s] => match dec_val v, dec_val s with
@@ -309,6 +310,9 @@ Definition u_c14 (k : Z) (a : sx) : sx :=
       | L [A 2; x; y] => match dec_val x, dec_val y with
                          | Some (VDict x'), Some (VDict y') => enc_res (add_dict x' y' >>= fun r => Ok (VDict r))
                          | _, _ => bad_input end
+      | L [A 3; v] => match dec_val v with Some v' => enc_res (totals_s v') | None => bad_input end
+      | L [A 4; v; s] => match dec_val v, dec_val s with
+                         | Some v', Some s' => enc_res (subset_s v' s') | _, _ => bad_input end
       | _ => bad_input
       end
   | _ => bad_input
